@@ -66,6 +66,14 @@ checks = {
    text="TallyVote on every injected vote distribution over small counters/participation levels/timings against an exact-rational formula, plus a lifecycle/vote monitor (status edges, vote window, voter power, counter sums, recorded result) on an exhaustive DFS over vote orders and on all deviation-bounded histories",
    note="scores closer than 4e-6 accept either neighbour, exact ties accept any decided result; a team-address change during voting follows the implementation (statement silent)",
    technique="bounded-exhaustive state injection + explicit-state DFS with a lock-step reference model"),
+ "C11": dict(engine=E1, level="model_checking",
+   text="at every transition that funds a dispute the monitor recomputes the category share from the micro-report the reporter really stored and compares backer losses (on every validator and in unbonding entries), escrow, per-backer record, jail and flag; exhaustive DFS over staking histories between report and dispute x categories x fee patterns x genuine/altered/invented reports in two validator-cap worlds + deviation-bounded histories",
+   note="three genuine defects are recorded known findings (altered value / altered power accepted, fractional-stake share denominator) with exact-deviation signatures; per-backer shares are not compared in transactions that also pay the fee from the same stake",
+   technique="explicit-state DFS with state-hash dedup + deviation-bounded exploration with a lock-step reference"),
+ "C13": dict(engine=E1, level="model_checking",
+   text="a shadow settlement ledger follows every payment; at execution/expiry the burn and returned stake are compared with the amounts the result implies and, on a throw-away branch, every payer and voter claims in two orders (each once, second attempt rejected, pro-rata amounts, residual <= dust after subtracting the shortfalls already reported); exhaustive DFS over payment patterns/votes/timings incl. multi-round prefixes + deviation-bounded histories",
+   note="ten genuine defects of the dispute refund logic are recorded known findings, each with a root-cause signature; minting is kept off so that payouts are not mixed with auto-withdrawn staking rewards",
+   technique="explicit-state DFS with state-hash dedup + deviation-bounded exploration, lock-step shadow ledger and branch probes"),
 }
 design = {"C02": "§3 C02", "C03": "§3 C03", "C04": "§3 C04", "C05": "§3 C05", "C08": "§3 C08", "C19": "§3 C19"}
 
